@@ -730,9 +730,8 @@ func (ex *Exec) oblige(st *State, kind, anchor string, pos token.Pos, goal *Term
 	}
 	if isTrue(goal) {
 		// trivially true on this path; keep a record so the obligation exists
-		if len(ob.Queries) == 0 {
-			ob.Queries = append(ob.Queries, &Query{Hyps: nil, Goal: tTrue, Decls: ex.D, Path: strings.Join(st.path, ">")})
-		}
+		// and so that the cover check knows this path reaches it
+		ob.Queries = append(ob.Queries, &Query{Hyps: append([]*Term(nil), st.pc...), Goal: tTrue, Decls: ex.D, Path: strings.Join(st.path, ">")})
 		return
 	}
 	ob.Queries = append(ob.Queries, &Query{Hyps: append([]*Term(nil), st.pc...), Goal: goal, Decls: ex.D, Path: strings.Join(st.path, ">"), Vars: ex.modelVars, Slices: ex.modelSlices})
